@@ -692,6 +692,10 @@ var probeNames = []string{simrt.PLockContended: "sched.lock_contended", simrt.PC
 func (w *World) afterRun(rr simrt.RunResult) {
 	for _, v := range w.Sim.Verdicts {
 		w.Violate(v.Property, v.Class, "%s", v.Detail)
+		if v.Property != w.O.Prop && w.Discard == "" {
+			// a crash or hang met while checking another property: this run cannot speak about it
+			w.Discard = v.Property + "/" + v.Class
+		}
 	}
 	w.Sim.Verdicts = nil
 	if rr.Reason == "wedge" {
